@@ -170,11 +170,6 @@ Example ex_frame_sizes :
   frame_size (packed 1 33 47 1 12) = 96.
 Proof. vm_compute. repeat split. Qed.
 
-Lemma fs104 : is_frame_size 104.
-Proof. exists (packed 1 3 1 1 0). split; [cbv; discriminate|vm_compute; reflexivity]. Qed.
-Lemma fs112 : is_frame_size 112.
-Proof. exists (packed 1 5 1 1 1). split; [cbv; discriminate|vm_compute; reflexivity]. Qed.
-
 (* a capacity-320 ring, a sink (reader 0) that consumes one frame of a two-frame slice, a client (reader 1),
    mixed sizes 104/112, a write that lands exactly on the capacity (nbytes = cap - head), a wrap *)
 Definition ex_ops : list op :=
@@ -186,33 +181,27 @@ Definition ex_ops : list op :=
    OWriteMap 104; OCommit;
    OWriteMap 112; OCommit].
 
-Ltac whole_tac :=
-  let r := fresh "r" in let Hr := fresh "Hr" in let Hm := fresh "Hm" in
-  intros r Hr Hm; vm_compute in Hr; inversion Hr; subst r;
-  first [left; vm_compute; discriminate | right; vm_compute; tauto].
-
-Ltac fop_tac :=
-  split; [first [exact I | exact fs104 | exact fs112] | first [exact I | whole_tac]].
-
+(* the hypotheses of C05_packet_whole and C05_offsets_aligned hold of it (boolean checkers, proved sound) *)
 Example ex_hist_ok : hist_ok frame_hist_op (ginit 320) ex_ops.
-Proof. unfold ex_ops. cbn [hist_ok]. repeat (split; [fop_tac|]). exact I. Qed.
+Proof. apply (frame_histb_sound [packed 1 3 1 1 0; packed 1 5 1 1 1]). vm_compute. reflexivity. Qed.
 
 Example ex_hist_al : hist_ok al_op (ginit 320) ex_ops.
-Proof. unfold ex_ops. cbn [hist_ok].
-  repeat (split; [first [exact I | (exists 13; reflexivity) | (exists 14; reflexivity) | (left; exists 13; reflexivity)
-                        | (left; exists 14; reflexivity) | (left; exists 40; reflexivity)]|]). exact I. Qed.
+Proof. apply al_histb_sound. vm_compute. reflexivity. Qed.
 
 (* the state reached: the writer has wrapped (lap 1, head 112, high 320), the sink's hold is at 216 in lap 0;
    its next read is the one-frame packet [216,320) at the end of the old lap; C05_packet_whole applies *)
-Example ex_reached : exists g, grun (ginit 320) ex_ops = Some g /\
-  cyc (cs g) = 1 /\ head (cs g) = 112 /\ high (cs g) = 320 /\ bounds g = [432; 320; 216; 104; 0] /\
-  wf_op g (OReadMap 0%nat) /\
-  exists g', gstep g (OReadMap 0%nat) = (g', ResR (mkRres 216 104 false)) /\
-    hdr_mem g' 4096 (4096 + 216) = 104 /\
-    iter_all 2 (hdr_mem g' 4096) (mkIt (4096 + 216) (4096 + 320)) = ([4312], Some 4416).
-Proof. eexists. split; [vm_compute; reflexivity|]. vm_compute. repeat split; try lia.
-  - intros r H. inversion H; subst; reflexivity.
-  - eexists. repeat split. Qed.
+Example ex_reached :
+  match grun (ginit 320) ex_ops with
+  | Some g =>
+      cyc (cs g) = 1 /\ head (cs g) = 112 /\ high (cs g) = 320 /\ bounds g = [432; 320; 216; 104; 0] /\
+      wf_opb g (OReadMap 0%nat) = true /\
+      let g' := fst (gstep g (OReadMap 0%nat)) in
+      snd (gstep g (OReadMap 0%nat)) = ResR (mkRres 216 104 false) /\
+      hdr_mem g' 4096 (4096 + 216) = 104 /\
+      iter_all 2 (hdr_mem g' 4096) (mkIt (4096 + 216) (4096 + 320)) = ([4312], Some 4416)
+  | None => False
+  end.
+Proof. vm_compute. repeat split. Qed.
 
 (* the two-frame packet [0,216) the sink maps first: the iterator visits 0+base and 104+base and lands on 216+base;
    a clock that selects the second frame makes the sink append one frame and consume 104 *)
